@@ -47,13 +47,13 @@ Lemma pk_frequencies_normalised :
 Proof. intros h f H Hne. split; [exact (frequencies_normalised h f H Hne)|intro w; exact (frequencies_hsum h f w H)]. Qed.
 
 Lemma pk_reverse_is_bijection :
-  forall (o : hist) (n : Z) (eps : Qc),
-    mk_histogram o n true eps = match mk_histogram o n false eps with Ok h => Ok (rev_keys h) | Err e => Err e end
+  forall (r : conv_rule) (o : hist) (n : Z) (eps : Qc),
+    mk_histogram_with r o n true eps = match mk_histogram_with r o n false eps with Ok h => Ok (rev_keys h) | Err e => Err e end
     /\ (forall h, rev_keys (rev_keys h) = h)
     /\ (forall h w, hsum w (rev_keys h) = hsum (fun k => w (rev k)) h)
     /\ (forall h k, hget (rev_keys h) (rev k) = hget h k).
 Proof.
-  intros o n eps. split; [exact (mk_histogram_msq o n eps)|]. split; [exact rev_keys_involutive|].
+  intros r o n eps. split; [exact (mk_histogram_with_msq r o n eps)|]. split; [exact rev_keys_involutive|].
   split; [intros h w; exact (hsum_rev_keys w h)|exact hget_rev_keys].
 Qed.
 
